@@ -40,7 +40,17 @@ class SF:
     def __gt__(s, o): return engine.CUR.branch(z3.fpGT(s.t, SF.lift(o)))
     def __eq__(s, o): return engine.CUR.branch(z3.fpEQ(s.t, SF.lift(o)))
     __hash__ = None
-    def __round__(s, nd=None): return SI(z3.fpToSBV(RNE, z3.fpRoundToIntegral(RNE, s.t), z3.BitVecSort(W)))
+    def __round__(s, nd=None):
+        if nd is None:
+            return SI(z3.fpToSBV(RNE, z3.fpRoundToIntegral(RNE, s.t), z3.BitVecSort(W)))
+        if not isinstance(nd, int) or not 0 < nd <= 15:
+            raise engine.Unsupported("round(float, ndigits) with ndigits outside 1..15")
+        # decimal rounding has no counterpart in the FP theory: OVER-approximated by ANY binary64 within half a unit of the
+        # last kept decimal (a hair more for the final binary rounding); every counterexample is replayed on the real round()
+        r = z3.FreshConst(D, "round_nd")
+        engine.CUR.solver.add(z3.fpLEQ(z3.fpAbs(z3.fpSub(RNE, r, s.t)), z3.FPVal(0.5 * 10.0 ** -nd * (1 + 2.0 ** -40), D)),
+                              z3.Not(z3.fpIsNaN(r)), z3.Not(z3.fpIsInf(r)))
+        return SF(r)
     def __ceil__(s): return SI(z3.fpToSBV(z3.RTP(), s.t, z3.BitVecSort(W)))
     def __trunc__(s): return SI(z3.fpToSBV(z3.RTZ(), s.t, z3.BitVecSort(W)))
     def __float__(s): raise engine.Unsupported("concrete value of a symbolic float")
